@@ -737,6 +737,48 @@ func (x *c05bRun) periodRenew(tokP, roleP int64) {
 	x.out.Op(vh.Catch(func() string { return res + "|" + k.observe() })+mark, "periodrenew", vh.I(tokP), vh.I(roleP))
 }
 
+// roleGoneRenew (directed, self-contained): a token issued through a role that carries the lifetime bounds (period and/or
+// explicit maximum, none given in the create call) is renewed AFTER the role was deleted: the bounds it was issued under
+// keep applying — the renewal is refused, or granted within them; never the full increment.
+func (x *c05bRun) roleGoneRenew(period, emax int64) {
+	k := x.k
+	role := fmt.Sprintf("c05g%d-%d", period, emax)
+	d := map[string]any{"allowed_policies": "c05bpol", "orphan": true}
+	if period > 0 {
+		d["token_period"] = fmt.Sprintf("%ds", period)
+	}
+	if emax > 0 {
+		d["token_explicit_max_ttl"] = fmt.Sprintf("%ds", emax)
+	}
+	if cl, _ := vhReq(k.c, logical.UpdateOperation, "auth/token/roles/"+role, k.root, d); cl != "ok" {
+		k.t.Fatalf("token role %s: %s", role, cl)
+	}
+	cl, resp := vhReq(k.c, logical.UpdateOperation, "auth/token/create/"+role, k.root, map[string]any{"policies": []string{"c05bpol"}})
+	if cl != "ok" || resp == nil || resp.Auth == nil {
+		k.t.Fatalf("role token: %s", cl)
+	}
+	tok := resp.Auth.ClientToken
+	if cl, _ := vhReq(k.c, logical.DeleteOperation, "auth/token/roles/"+role, k.root, nil); cl != "ok" {
+		k.t.Fatalf("role delete: %s", cl)
+	}
+	bound := emax
+	if period > 0 && (bound == 0 || period < bound) {
+		bound = period
+	}
+	res, mark := "refused", ""
+	rcl, rresp := vhReq(k.c, logical.UpdateOperation, "auth/token/renew-self", tok, map[string]any{"increment": "36000s"})
+	if rcl == "ok" && rresp != nil && rresp.Auth != nil {
+		res = "within"
+		if rresp.Auth.TTL > time.Duration(bound)*time.Second+5*time.Second {
+			res = fmt.Sprintf("granted:%d", c05bMin(rresp.Auth.TTL))
+			mark = fmt.Sprintf("!VIOL:a token issued through a role with period %ds / explicit maximum %ds was renewed to %ds after the role had been deleted: the bounds it was issued under no longer apply#role-token-unbounded-after-role-deletion", period, emax, int64(rresp.Auth.TTL/time.Second))
+		}
+	}
+	_, _ = vhReq(k.c, logical.UpdateOperation, "auth/token/revoke", k.root, map[string]any{"token": tok})
+	k.quiesce()
+	x.out.Op(vh.Catch(func() string { return res + "|" + k.observe() })+mark, "rolegonerenew", vh.I(period), vh.I(emax))
+}
+
 // rootCreate: a non-expiring root token (lease with zero expiry, tracked in `nonexpiring`)
 func (x *c05bRun) rootCreate() {
 	x.now++
@@ -1109,6 +1151,9 @@ func c05bDirected() []func(x *c05bRun) {
 			x.periodRenew(120, 60)
 			x.periodRenew(60, 0)
 			x.periodRenew(3600, 3600)
+			x.roleGoneRenew(20, 60)
+			x.roleGoneRenew(0, 60)
+			x.roleGoneRenew(20, 0)
 		},
 		func(x *c05bRun) { // a restore that cannot read one lease entry must not leave the node active (secret lease, token lease)
 			x.reg(0, 3600, 7200, true)
